@@ -130,11 +130,24 @@ def _rcmp(op):
 
 
 class SymReal:
-    """A python float modelled as a mathematical real (binary rounding is outside the claim)."""
-    __slots__ = ("e",)
+    """A python float modelled as a mathematical real (binary rounding is outside the claim).
 
-    def __init__(self, e):
+    q = (Lin numerator, int denominator) when the value is known to be that exact ratio of an integer term (elapsed
+    microseconds / 1e6 / period): conversion to a decimal then stays linear."""
+    __slots__ = ("e", "q")
+
+    def __init__(self, e, q=None):
         self.e = e
+        self.q = q
+
+    def _scaled(self, num, den):
+        """self * num / den for python ints, keeping the exact ratio"""
+        if self.q is None:
+            return None
+        from . import lin as L
+        n, d = self.q
+        f = Fraction(num, den) / d
+        return (L.scale(n, f.numerator), f.denominator)
 
     __lt__ = _rcmp("lt")
     __le__ = _rcmp("le")
@@ -164,13 +177,22 @@ class SymReal:
         return self._bin(o, lambda a, b: a - b, swap=True)
 
     def __mul__(self, o):
-        return self._bin(o, lambda a, b: a * b)
+        r = self._bin(o, lambda a, b: a * b)
+        if r is not NotImplemented and isinstance(o, (int, float, Fraction)) and not isinstance(o, bool):
+            f = Fraction(o)
+            r.q = self._scaled(f.numerator, f.denominator)
+        return r
     __rmul__ = __mul__
 
     def __truediv__(self, o):
         b = _zr(o)
         if b is NotImplemented:
             return NotImplemented
+        if isinstance(o, (int, float, Fraction)) and not isinstance(o, bool):
+            if o == 0:
+                raise ZeroDivisionError("float division by zero")
+            f = Fraction(o)
+            return SymReal(self.e / b, self._scaled(f.denominator, f.numerator))
         if Ctx.cur.branch(b == 0):
             raise ZeroDivisionError("float division by zero")
         return SymReal(self.e / b)
@@ -205,6 +227,13 @@ class SymReal:
         value is carried as (fresh int n) / (fresh int d) with n == e*d"""
         from .dec import SymDec
         ctx = Ctx.cur
+        if self.q is not None:
+            from .lin import Lin
+            n, d = self.q
+            if d < 0:
+                from . import lin as L
+                n, d = L.neg(n), -d
+            return SymDec(n, 0, 1 if d == 1 else Lin({}, d))
         n, d = ctx.fresh("rn"), ctx.fresh("rd")
         ctx.add(z3.And(d > 0, z3.ToReal(n) == self.e * z3.ToReal(d)))
         ctx.inexact = True
